@@ -121,6 +121,17 @@ def fill_cases(ctx):
         ops = fill_program(info["bpc"], g["clusters"])
         meta = dict(source="build", ft=ft, **kw)
         out.append(history.Case(f"fill{ft}-partial-last-cluster-{gi}", img, ops, mount=dict(encoding="ibm437", offset=(0, 1536, 4096, 512)[gi % 4]), meta=meta))
+    # a FAT12 volume whose FAT holds exactly count + 2 entries, an ODD number (one sector: 341 entries, 339 clusters): filled to the LAST cluster, so
+    # the last entry of the table is in use when the table is written (C04-m7: a pair-wise packer dropped the unpaired last entry)
+    kw = dict(clusters=339, rootent=16)
+    img, info = fatspec.build(12, **kw)
+    ops = [["makedir", "/f"]]        # (the root region has 16 slots only)
+    for i in range(52):
+        ops += [["open", f"f{i}", f"/f/S{i:02d}.BIN", "w"], ["write", f"f{i}", "%02x" % (0x30 + i % 64) * (7 * info["bpc"])], ["hclose", f"f{i}"]]
+    for i in range(10):
+        ops += [["open", f"o{i}", f"/f/ONE{i:02d}.BIN", "w"], ["write", f"o{i}", "6f"], ["hclose", f"o{i}"]]
+    ops += [["listdir", "/f"], ["remove", "/f/S03.BIN"], ["open", "z", "/f/AGAIN.BIN", "w"], ["write", "z", "7a" * (7 * info["bpc"])], ["hclose", "z"], ["closefs"]]
+    out.append(history.Case("fill12-last-entry", img, ops, mount=dict(encoding="ibm437"), meta=dict(source="build", ft=12, **kw)))
     return out
 
 
